@@ -41,7 +41,8 @@ META = {
     "technique": "abstract interpretation of the sweep drivers on symbolic trees with a version/signature typestate for environments and a gauge-centre typestate; leg-identity/label bijection for the effective-Hamiltonian networks; Hermiticity typing of solver operands",
     "text": "Decides that the tree evolution code never reads a stale environment, always solves local problems at the gauge centre with the correct "
             "effective-Hamiltonian network, realises the projector splitting exactly (each term once, tau/2, correct sign) on every symbolic topology, and "
-            "keeps the VMF vector layout consistent. Accuracy (error order), norm/energy conservation values and agreement with the chain code are not decided.",
+            "keeps the VMF vector layout consistent. Accuracy (error order), norm/energy conservation values and agreement with the chain code are not decided."
+            " The local propagation steps (zero-, one- and two-site) are run with recorders for several shapes of the local tensor, single numbers included: one Krylov exponential of coeff * tau * H_eff on the local tensor.",
     "note": "The backward half-sweep of the one-site scheme visits children in the same order as the forward half (not mirrored); this affects only the order of the "
             "splitting error at truncated bond dimension, which the property does not constrain, and is reported as a note.",
     "design_ref": "DESIGN.md 3.3, 3.4, 4 (C12); as built: 9.1, 9.3, 9.8",
